@@ -23,10 +23,11 @@ _tlog.startLoggingWithObserver(lambda ev: None, setStdout=False)   # unhandled-D
 
 
 def shadows():
-    return loader.shadow((T, "isinstance", V.sym_isinstance), (T, "log", LogRec()))
+    from symrun.values import sym_int
+    return loader.shadow((T, "isinstance", V.sym_isinstance), (T, "log", LogRec()), (T, "hexlify", sym_hexlify), (T, "int", sym_int))
 
 
-SHADOWS = ["transit.isinstance", "transit.log"]
+SHADOWS = ["transit.isinstance", "transit.log", "transit.hexlify/int (as in C06, for record bytes that follow a completed handshake)"]
 
 
 def owner(sender, clock, key=KEY):
